@@ -382,4 +382,110 @@ theorem while_sim (H : Hyp T tpep len M fuel) (j : Nat) (hj : j < (mkParams T tp
         simp [R.me, hb, hs, St.fail] at he
 end While
 
+
+/-! ### the isogeny part of an iteration of the main loop -/
+
+theorem ev_read_s (o : OSt) (a : Int) (hb : o.bad = false) (hin : o.inb a = true)
+    (hs : (o.sp a).isSome = true) : ev o 5 [a] = { o with log := o.log ++ [(5, a, 0)] } := by
+  cases h : o.sp a with
+  | none => simp [h] at hs
+  | some v => simp [ev, hb, hin, h]
+
+theorem ev_isog4_s (o : OSt) (a : Int) (hb : o.bad = false) (hin : o.inb a = true)
+    (hs : (o.sp a).isSome = true) :
+    ev o 6 [a] = { o with log := o.log ++ [(6, a, 0)], kers := o.kers ++ [(6, (o.sp a).getD 0)] } := by
+  cases h : o.sp a with
+  | none => simp [h] at hs
+  | some v => simp [ev, hb, hin, h]
+
+theorem ev_isog2_s (o : OSt) (a : Int) (hb : o.bad = false) (hin : o.inb a = true)
+    (hs : (o.sp a).isSome = true) :
+    ev o 8 [a] = { o with log := o.log ++ [(8, a, 0)], kers := o.kers ++ [(8, (o.sp a).getD 0)] } := by
+  cases h : o.sp a with
+  | none => simp [h] at hs
+  | some v => simp [ev, hb, hin, h]
+
+theorem ev_eval4_s (o : OSt) (n : Int) (hb : o.bad = false) (h : 0 ≤ n ∧ n ≤ o.size) :
+    ev o 7 [n] = { o with sp := fun k => if 0 ≤ k ∧ k < n then (o.sp k).map (· - 2) else o.sp k,
+                          log := o.log ++ [(7, n, 0)] } := by
+  simp [ev, hb, h]
+
+theorem ev_dbl_s (o : OSt) (c : Int) (hb : o.bad = false) (hin : o.inb c = true)
+    (hs : (o.sp c).isSome = true) :
+    ev o 4 [c, c] = obsDbl o c ((o.sp c).getD 0 - 1) (o.log ++ [(4, c, c)]) := by
+  cases h : o.sp c with
+  | none => simp [h] at hs
+  | some v =>
+    simp [OSt.inb] at hin
+    simpa using ev_dbl o c v hb hin.1 hin.2 h
+
+/-- observer state after the 4-isogeny with kernel slot `c` (exponent `kk`) and its evaluation on the slots below -/
+def isoObs (o : OSt) (c : Int) (kk : Nat) (lg : List (Nat × Int × Int)) : OSt :=
+  { o with sp := fun x => if 0 ≤ x ∧ x < c then (o.sp x).map (· - 2) else if x = c then some kk else o.sp x,
+           log := lg, kers := o.kers ++ [(6, kk)] }
+
+section Body1
+variable (T : List (List Nat)) (tpep len : Nat) (oracle : Nat → Bool) (fuel : Nat) (pl : Int)
+
+theorem body1 (k k1 : EvenSt OSt) (hf : k.fault = none) (hb : k.obs.bad = false)
+    (hk1 : whileF (EvenSt.live obs)
+          (fun s => match ec_eval_even_strategy_loop2_cond obs T tpep oracle fuel len pl s with | .ok b => b | .error _ => true)
+          (fun s => match ec_eval_even_strategy_loop2_cond obs T tpep oracle fuel len pl s with
+            | .ok _ => ec_eval_even_strategy_loop2_body obs T tpep oracle fuel len pl s | .error f => s.fail f)
+          (fun s => s.fail .fuel) fuel k = k1)
+    (c v d odd jn : Nat) (h1f : k1.fault = none) (h1b : k1.obs.bad = false) (hcur : k1.current = (c : Int))
+    (hsz : (c : Int) < k1.obs.size) (hsp : k1.obs.sp (c : Int) = some v) (hodd : k1.is_odd = (odd : Int))
+    (hxs : k1.XDBLs.size = k1.obs.size) (hxg : k1.XDBLs.get (c : Int) = some (d : Int)) (hjj : k1.j = (jn : Int)) :
+    ∃ lg, ec_eval_even_strategy_loop1_body obs T tpep oracle fuel len pl k =
+      { k1 with BLOCK := k1.BLOCK - (d : Int), XDBLs := k1.XDBLs.set (c : Int) 0, current := (c : Int) - 1,
+                j := (jn : Int) + 1,
+                obs := isoObs k1.obs (c : Int) (v - (if jn ≠ 0 ∧ odd ≠ 0 ∧ c = 0 then 1 else 0)) lg } := by
+  refine ⟨(ec_eval_even_strategy_loop1_body obs T tpep oracle fuel len pl k).obs.log, ?_⟩
+  unfold ec_eval_even_strategy_loop1_body
+  rw [step_live _ k hf hb]
+  erw [hk1]
+  have hin : k1.XDBLs.inb (c : Int) = true := by simp [IArr.inb, hxs]; omega
+  have h0 : (0 : Int) ≤ (c : Int) := by omega
+  have hle : (c : Int) ≤ k1.obs.size := Int.le_of_lt hsz
+  have hfix : (fun k => if 0 ≤ k ∧ k < (c : Int) then Option.map (fun x => x - 2) (k1.obs.sp k) else k1.obs.sp k) = fun x =>
+      if 0 ≤ x ∧ x < (c : Int) then Option.map (fun x => x - 2) (k1.obs.sp x) else if x = (c : Int) then some v else k1.obs.sp x := by
+    funext x
+    by_cases hx : x = (c : Int)
+    · subst hx; simp [hsp]
+    · simp [hx]
+  by_cases hj : jn = 0
+  · subst hj
+    by_cases ho : oracle 0 = true
+    · by_cases hp : pl = 0
+      · simp [EvenSt.step, EvenSt.live, obs, h1f, h1b, hcur, hjj, hodd, hin, rdArr, hxg, EvKind.read, EvKind.isog4, EvKind.eval4,
+          EvKind.dbl, ev_read_s, ev_isog4_s, ev_eval4_s, ev_dbl_s, hsp, hsz, hle, h0, isoObs, obsDbl_sp, truthy, OSt.inb, ho, hp]
+        exact hfix
+      · simp [EvenSt.step, EvenSt.live, obs, h1f, h1b, hcur, hjj, hodd, hin, rdArr, hxg, EvKind.read, EvKind.isog4, EvKind.eval4,
+          EvKind.dbl, ev_read_s, ev_isog4_s, ev_eval4_s, ev_dbl_s, hsp, hsz, hle, h0, isoObs, obsDbl_sp, truthy, OSt.inb, ho, hp]
+        exact hfix
+    · simp [EvenSt.step, EvenSt.live, obs, h1f, h1b, hcur, hjj, hodd, hin, rdArr, hxg, EvKind.read, EvKind.isog4, EvKind.eval4,
+          EvKind.dbl, ev_read_s, ev_isog4_s, ev_eval4_s, ev_dbl_s, hsp, hsz, hle, h0, isoObs, obsDbl_sp, truthy, OSt.inb, ho]
+      exact hfix
+  · have hj' : ¬ (jn : Int) = 0 := by omega
+    by_cases hx : odd ≠ 0 ∧ c = 0
+    · obtain ⟨hx1, rfl⟩ := hx
+      have : ¬ (odd : Int) = 0 := by omega
+      have hsp0 : k1.obs.sp 0 = some v := by simpa using hsp
+      have hsz0 : 0 < k1.obs.size := by simpa using hsz
+      have hle0 : 0 ≤ k1.obs.size := by omega
+      have hcur0 : k1.current = 0 := by simpa using hcur
+      have hin0 : k1.XDBLs.inb 0 = true := by simpa using hin
+      have hxg0 : k1.XDBLs.get 0 = some (d : Int) := by simpa using hxg
+      simp only [Int.natCast_zero] at hfix ⊢
+      simp [EvenSt.step, EvenSt.live, obs, h1f, h1b, hcur, hjj, hodd, hin, rdArr, hxg, EvKind.read, EvKind.isog4, EvKind.eval4,
+          EvKind.dbl, ev_read_s, ev_isog4_s, ev_eval4_s, ev_dbl_s, hsp, hsz, hle, h0, isoObs, obsDbl_sp, truthy, OSt.inb, hj, hj', hx1, this, hsp0, hsz0, hcur0, hin0, hxg0, hle0]
+      funext x
+      have : ¬ (0 ≤ x ∧ x < 0) := by omega
+      simp [this]
+    · have hx' : ((odd : Int) = 0) ∨ ¬ (c : Int) = 0 := by omega
+      simp [EvenSt.step, EvenSt.live, obs, h1f, h1b, hcur, hjj, hodd, hin, rdArr, hxg, EvKind.read, EvKind.isog4, EvKind.eval4,
+          EvKind.dbl, ev_read_s, ev_isog4_s, ev_eval4_s, ev_dbl_s, hsp, hsz, hle, h0, isoObs, obsDbl_sp, truthy, OSt.inb, hj, hj', hx, hx']
+      exact hfix
+end Body1
+
 end SqiProofs.SkelEvenSim
